@@ -95,6 +95,61 @@ func TestEnum(t *testing.T) {
 	}
 }
 
+// TestEnumHeredoc: every heredoc body up to the bound over {A, B, NL, blank, x} for the
+// markers AB, AAB and ABAB, followed by an argument on the marker line and a next command.
+func TestEnumHeredoc(t *testing.T) {
+	maxLen := hx.EnvInt("VERIF_C17_HEREDOC_LEN", 6)
+	if hx.Thorough() {
+		maxLen = hx.EnvInt("VERIF_C17_HEREDOC_LEN", 9)
+	}
+	shard, nshards := hx.Shard()
+	k := int64(len(HereEnumAlphabet))
+	var idx, done, bulkNonTrivial int64
+	buf := make([]byte, maxLen)
+	for _, mark := range HereEnumMarkers {
+		for l := 0; l <= maxLen; l++ {
+			total := int64(1)
+			for i := 0; i < l; i++ {
+				total *= k
+			}
+			for n := int64(0); n < total; n++ {
+				idx++
+				if int((idx-1)%int64(nshards)) != shard {
+					continue
+				}
+				x := n
+				for i := l - 1; i >= 0; i-- {
+					buf[i] = HereEnumAlphabet[x%k]
+					x /= k
+				}
+				c := BytesCase{In: B(HereEnumInput(mark, buf[:l]))}
+				done++
+				if l <= 7 {
+					if !hx.One(t, "bytes", c, ExecBytes) {
+						return
+					}
+					continue
+				}
+				v := ExecBytes(c)
+				if !v.OK {
+					hx.One(t, "bytes", c, ExecBytes)
+					return
+				}
+				if v.NonTrivial {
+					bulkNonTrivial++
+					v.NonTrivial = false
+				}
+				hx.Record("bytes", c, v)
+			}
+		}
+	}
+	hx.AddExhaustive(hx.Exhaustive{What: fmt.Sprintf("k=<<M NL body NL M t NL n x NL for M in %v and all bodies of length <= %d (shard %d of %d)", HereEnumMarkers, maxLen, shard, nshards),
+		Alphabet: "A B newline blank x", Bound: "body length <= " + strconv.Itoa(maxLen), Count: done})
+	if bulkNonTrivial > 0 {
+		hx.AddCounter("enum_heredoc_nontrivial_len8plus_not_hashed", bulkNonTrivial)
+	}
+}
+
 // seeds of the native fuzz target: the seven lines of varutil/arguments_test.go and
 // hostile constants.
 var fuzzSeeds = []string{
@@ -106,7 +161,7 @@ var fuzzSeeds = []string{
 	"   v1 path=<<EOF\n\t\tSome\n\t\tMultiline\n\t\targument\nEOF",
 	"   v1 path=<<EOF\n\t\tSome\n\t\tMultiline\n\t\targument\nEOF desc=<<EOFD\nSome\ndesc\nEOFD",
 	`\a`, `x \a`, "\xff", "a\xc3\xa9b \xff\xfe", `\`, `"`, `"\`, `a"`, "\\\na", "a \\\nb", "a=<<", "a=<<E", "a=<<E\n", "a=<<E\nE", "a=<<E\nx\nE",
-	"=<<E\nx\nE", "a=<<1\n", "a=<<E\nx\nEE\nE\n", "a=<\\<E", "\"a=<\"<E\nx\nE", "a\nb\nc", "a\r\nb", "\x00", "--\n-- --", "\"\"", "\"\" \"\"\n\"\"",
+	"=<<E\nx\nE", "a=<<1\n", "a=<<EOF\nx\nEO\nEOF t\nn\n", "a=<<EOF\nx\n\nEOF\nn\n", "a=<<ABAB\nAB\nABA\nABAB", "a=<<E\nx\nEE\nE\n", "a=<\\<E", "\"a=<\"<E\nx\nE", "a\nb\nc", "a\r\nb", "\x00", "--\n-- --", "\"\"", "\"\" \"\"\n\"\"",
 }
 
 // FuzzSplit is the native fuzz target (thorough tier): raw bytes through ExecBytes.
@@ -177,7 +232,7 @@ func TestSelf(t *testing.T) {
 			rt.Fatalf("%q: %d vs %d commands\n%#v\n%#v", in, len(ref), len(exp), ref, exp)
 		}
 		for i := range ref {
-			if !equalArgs(ref[i].Args, exp[i].Args) || ref[i].EOF != exp[i].EOF || ref[i].End != exp[i].End {
+			if !equalArgs(ref[i].Args, exp[i].Args) || !reflect.DeepEqual(ref[i].Open, exp[i].Open) || ref[i].EOF != exp[i].EOF || ref[i].End != exp[i].End {
 				rt.Fatalf("%q: command %d: reference %#v, structure %#v", in, i, ref[i], exp[i])
 			}
 		}
